@@ -931,3 +931,57 @@ func (sm *Sim) DrainShown(sorted bool, pairs bool) string {
 	}
 	return strings.Join(s, ",")
 }
+
+// Exhaustive enumerates every history of exactly `depth` letters over a 14-letter alphabet (frames of two
+// clients on two LAN addresses incl. a collision, ARP, IPv6 LLA, router GUA, a DHCP frame without host,
+// DHCPv4Update, two purge distances, Notify, Capture, SetOffer, a name update). Virtual time advances by one
+// second per letter; the purge letters jump past the offline / purge deadline.
+func Exhaustive(u Universe, depth int, discipline bool, f func(ops []string)) {
+	c1, c2, rt := u.MACs[2], u.MACs[3], u.MACs[1]
+	ipA, ipB := u.IP4s[2], u.IP4s[3]
+	type letter func(now *int64) []string
+	rx := func(src net.HardwareAddr, class string, ip netip.Addr, am net.HardwareAddr, variant int) letter {
+		return func(now *int64) []string {
+			*now++
+			ops := []string{RxTok(src, class, ip, am, variant, *now)}
+			if discipline {
+				ops = append(ops, "N")
+			}
+			return ops
+		}
+	}
+	alphabet := []letter{
+		rx(c1, "4", ipA, nil, 0), rx(c1, "4", ipB, nil, 1), rx(c2, "4", ipA, nil, 2), rx(c1, "a", ipA, c1, 0),
+		rx(c1, "6", u.IP6s[0], nil, 0), rx(rt, "6", u.IP6s[2], nil, 2), rx(c1, "4", u.IP4s[6], nil, 3),
+		func(now *int64) []string { *now++; return []string{fmt.Sprintf("U,%s,%s,1,%d", MacTok(c1), IPTok(ipB), *now)} },
+		func(now *int64) []string { *now += 301; return []string{fmt.Sprintf("P,%d", *now)} },
+		func(now *int64) []string { *now += 3661; return []string{fmt.Sprintf("P,%d", *now)} },
+		func(now *int64) []string { return []string{"C," + MacTok(c1)} },
+		func(now *int64) []string { return []string{"O," + MacTok(c1) + "," + IPTok(ipA) + ",2"} },
+		func(now *int64) []string { return []string{"M,1," + IPTok(ipA) + ",2"} },
+	}
+	if !discipline {
+		alphabet = append(alphabet, func(now *int64) []string { return []string{"N"} })
+	}
+	idx := make([]int, depth)
+	for {
+		var now int64
+		var ops []string
+		for _, i := range idx {
+			ops = append(ops, alphabet[i](&now)...)
+		}
+		f(ops)
+		p := depth - 1
+		for p >= 0 {
+			idx[p]++
+			if idx[p] < len(alphabet) {
+				break
+			}
+			idx[p] = 0
+			p--
+		}
+		if p < 0 {
+			return
+		}
+	}
+}
